@@ -132,6 +132,11 @@ func runC07(r *hx.Run, replay string) {
 		return
 	}
 	rr := r.Rng
+	// the comment scanner against Model/Comments (the model the C07 theorems read comments through) on random comment
+	// lines, including trailing blanks and carriage returns: the same op the C10 run uses
+	for i := 0; i < 2*r.N; i++ {
+		c10ReaderOp(r, []string{c10CommentLine(r)}, rr.Intn(2) == 0)
+	}
 	for i := 0; i < r.N; i++ {
 		// correspondence of GetChecksForEntry on entries carrying control comments, configs with tags
 		cfgText := enConfig(r, rr.Intn(2) == 0)
